@@ -144,7 +144,7 @@ Lemma body_read_VB k b acc p : 0 < k -> VB b acc p ->
 Proof.
   intros Hk. destruct b as [r|c|s|s]; cbn [VB].
   - intros [Hb [d [Ht Hp]]]. cbn [body_read bext].
-    rewrite (fixed_read_ext later k r d [] Hk Ht). unfold fixed_read.
+    rewrite (fixed_read_ext later k r d [] Hk Ht). rewrite (fixed_read_pos k r Hk).
     destruct (N.eqb_spec (f_remaining r) 0) as [E|E].
     + exists [], (BFixed r). cbn [lift rmap bext]. rewrite E, take_n_0 in Ht. injection Ht as Hd Hreach. subst d.
       rewrite app_nil_r in Hp. subst p. rewrite app_nil_r, lenN_nil.
@@ -315,7 +315,7 @@ Lemma read_to_end_invalid fuel : forall b acc, IB b acc -> (length (reach (body_
 Proof.
   induction fuel as [|fuel IH]; intros b acc HI Hf; [lia|].
   cbn [read_to_end]. destruct b as [r|c|s|s]; cbn [IB body_src] in HI, Hf; try contradiction.
-  - cbn [body_read]. unfold fixed_read.
+  - cbn [body_read]. rewrite (fixed_read_pos 8192 r) by lia.
     destruct (N.eqb_spec (f_remaining r) 0) as [E|E]; [lia|].
     destruct (buf_read (N.min (f_remaining r) 8192) (f_src r)) as [out s'] eqn:Ebr.
     apply buf_read_spec in Ebr. destruct Ebr as [B1 [B2 [B3 B4]]].
